@@ -28,6 +28,12 @@ func runC05(c *Ctx) {
 		c.undecided("O-0 anchors", "turbotunnelMode/ServeHTTP", "-", "anchor does not resolve")
 		return
 	}
+	// the session must outlive its carriers on both ends (C01's protocol-constant obligations: KCP/smux parameters and the keep-alive timeout against the client-map retention)
+	if ns := p.Fn("client/lib", "newSession"); ns != nil {
+		c.prefix = "O-6/C01:"
+		c.checkTunnelConstants(ns)
+		c.prefix = ""
+	}
 	rule1 := "O-1 one identity per carrier"
 	// the ClientID cell: the Alloc whose slice is read by io.ReadFull
 	var idCell *ssa.Alloc
@@ -41,7 +47,18 @@ func runC05(c *Ctx) {
 		}
 	}
 	if idCell == nil {
-		c.undecided(rule1, "turbotunnelMode reads the ClientID with io.ReadFull", p.Pos(tm.Pos()), "no io.ReadFull into a local turbotunnel.ClientID")
+		// is there a local ClientID at all? Then it is filled by something other than io.ReadFull
+		hasCell := false
+		allInstrs(tm, func(in ssa.Instruction) {
+			if al, ok := in.(*ssa.Alloc); ok && strings.HasSuffix(typeString(al.Type().(*types.Pointer).Elem()), "turbotunnel.ClientID") {
+				hasCell = true
+			}
+		})
+		if hasCell {
+			c.viol(rule1, "turbotunnelMode reads the ClientID with io.ReadFull", p.Pos(tm.Pos()), "the carrier's ClientID is not filled by io.ReadFull: a prefix that arrives in more than one read binds the carrier to a partial, zero-padded identifier shared with other clients")
+		} else {
+			c.undecided(rule1, "turbotunnelMode reads the ClientID with io.ReadFull", p.Pos(tm.Pos()), "no local turbotunnel.ClientID")
+		}
 		return
 	}
 	// only writer
